@@ -1,6 +1,7 @@
 import TD.C05.LemWriter
 import TD.C05.LemStrip
 import TD.C05.LemInit
+import TD.C05.LemScan
 /-!
 C05 — property theorems (LIS physical records: what is written is what is read, at any position; TIF stripping).
 
@@ -102,6 +103,65 @@ theorem seek_any_order (cfg : Cfg) [Pad0 cfg] (L : Layout) (rs : List Bytes) (op
   have hl := absRun_length L rs ops AState.init
   rw [← hl, List.drop_left]
   exact abs_seek_read L rs _ i hi (hr _ (by unfold recAt; simp [hi]))
+
+/-- **pad_tie_order** (`ret_padding_options_with_max_records` + `best_physical_record_pad_settings`): the options are
+scanned in the order (0,F) (0,T) (2,F) (2,T) (4,F) (4,T) and among those with the maximal count the FIRST is chosen —
+so whenever the first option counts at least one record and none counts more, the first option is returned. -/
+theorem pad_tie_order (o : Nat × Bool) (c : Nat) (t : List ((Nat × Bool) × Nat)) (hc : 0 < c)
+    (h : ∀ x ∈ t, x.2 ≤ c) : pickBest ((o, c) :: t) = some o :=
+  best_first o c t hc h
+
+/-- **scan_counts_records**: scanning (`scan_file_no_output` / `genPr`) a file written without padding with
+`pad_modulo = 0` (any `keepGoing`) counts exactly its physical records, up to `pr_limit`. -/
+theorem scan_counts_records (cfg : Cfg) [Pad0 cfg] (L : Layout) (rs : List Bytes) (limit : Nat)
+    (hL : L.Valid) (hr : ∀ r ∈ rs, r ≠ []) (hne : L.tif ≠ .off → rs ≠ [])
+    (hbe : L.tif = .be → firstNext L rs ≠ 0x100 ∧ firstNext L rs ≠ 0x10000)
+    (hsz : fileSize L rs + 24 < 4294967296) :
+    scanFile cfg (encode L rs) limit = if limit = 0 then numPRs L rs else min limit (numPRs L rs) :=
+  scan_unpadded ⟨hL, hr, by unfold fileSize at hsz; omega⟩ hne hbe limit
+
+/-- **pad_reader_refines** — the reader obtained through `file_read_with_best_physical_record_pad_settings(f, id,
+pr_limit)` on an unpadded written file is `FileRead(f, id, keepGoing=True, pad_modulo=0, pad_non_null=False)` and
+answers every history like the abstract semantics, provided `0 < pr_limit ≤ number of physical records` (then no padding
+option can count more than `pr_limit` records, and (0, False) is first among the tied best options). -/
+theorem pad_reader_refines (L : Layout) (rs : List Bytes) (ops : List Op) (limit : Nat)
+    (hL : L.Valid) (hr : ∀ r ∈ rs, r ≠ []) (hne : L.tif ≠ .off → rs ≠ [])
+    (hbe : L.tif = .be → firstNext L rs ≠ 0x100 ∧ firstNext L rs ≠ 0x10000)
+    (hsz : fileSize L rs + 24 < 4294967296) (hops : HistOK rs ops)
+    (hl : 0 < limit) (hn : limit ≤ numPRs L rs) :
+    bestPad (encode L rs) limit = some (0, false)
+    ∧ ∃ cfg, bestReaderCfg (encode L rs) limit = some cfg
+        ∧ run cfg (encode L rs) (some (Rd.new (encode L rs))) (ops.map (concOp L rs)) = absRun L rs AState.init ops := by
+  have g : Good L rs := ⟨hL, hr, by unfold fileSize at hsz; omega⟩
+  have hb := bestPad_unpadded_limit g hne hbe limit hl hn
+  refine ⟨hb, ⟨true, 0, false⟩, by unfold bestReaderCfg; rw [hb]; rfl, ?_⟩
+  exact read_refines ⟨true, 0, false⟩ L rs ops hL hr hne hbe hsz hops
+
+/-- **pad_reader_refines_cond** — the same for every `pr_limit` (0 = scan the whole file) under the explicit hypothesis
+that no padding option makes the scan count more records than the file has (within the limit). The hypothesis cannot be
+dropped: the scan is a heuristic, a payload that looks like physical records after a mis-consumed byte can make a
+padding option count more (the full statement "for every unpadded written file the choice is (0, False)" is false for
+`pr_limit = 0` and for `pr_limit` above the number of records). -/
+theorem pad_reader_refines_cond (L : Layout) (rs : List Bytes) (ops : List Op) (limit : Nat)
+    (hL : L.Valid) (hr : ∀ r ∈ rs, r ≠ []) (hrs : rs ≠ [])
+    (hbe : L.tif = .be → firstNext L rs ≠ 0x100 ∧ firstNext L rs ≠ 0x10000)
+    (hsz : fileSize L rs + 24 < 4294967296) (hops : HistOK rs ops)
+    (hle : ∀ o ∈ padOptions, scanFile ⟨true, o.1, o.2⟩ (encode L rs) limit
+        ≤ (if limit = 0 then numPRs L rs else min limit (numPRs L rs))) :
+    bestPad (encode L rs) limit = some (0, false)
+    ∧ ∃ cfg, bestReaderCfg (encode L rs) limit = some cfg
+        ∧ run cfg (encode L rs) (some (Rd.new (encode L rs))) (ops.map (concOp L rs)) = absRun L rs AState.init ops := by
+  have g : Good L rs := ⟨hL, hr, by unfold fileSize at hsz; omega⟩
+  have hb := bestPad_unpadded_of_le g (fun _ => hrs) hbe limit hrs hle
+  refine ⟨hb, ⟨true, 0, false⟩, by unfold bestReaderCfg; rw [hb]; rfl, ?_⟩
+  exact read_refines ⟨true, 0, false⟩ L rs ops hL hr (fun _ => hrs) hbe hsz hops
+
+/-- hypotheses of `pad_reader_refines` are satisfiable (5 physical records, pr_limit 5), and the model computes the
+choice: all six options tie at 5 records and (0, False) is returned -/
+example : let L : Layout := ⟨8, false, none, false, .off⟩
+    let rs : List Bytes := [[1,2,3,4],[5,6,7,8,9,10,11,12],[13,14,15,16],[17]]
+    numPRs L rs = 5 ∧ (scanAll true (encode L rs) 5).map (·.2) = [5, 5, 5, 5, 5, 5]
+    ∧ bestPad (encode L rs) 5 = some (0, false) := by decide +kernel
 
 /-- the hypotheses of `read_refines` are satisfiable by a non-trivial instance: reversed TIF, record-number and
 file-number trailers, maximum payload 3, records of 7 and 2 bytes, a history that reads across PR boundaries, seeks
